@@ -238,6 +238,13 @@ def placements(tier, seed):
                 ti += 1
                 out.append(('%s@%s:%s:%r' % (name, '/'.join('%s%d' % x for x in p) or 'root', how, t[:18]),
                             wrap_at(tree, p, how, t)))
+        # comment() and trailing_comment() stacked on the same node, both orders
+        stacked = [p for p, how in singles if how == 'tc']
+        for p in (stacked if tier == 'thorough' else stacked[:3]):
+            for order in (('c', 'tc'), ('tc', 'c')):
+                spec = wrap_at(tree, p, order[0], 'inner note')
+                spec = wrap_at(spec, p, order[1], 'outer words here')
+                out.append(('%s@%s:stacked-%s-%s' % (name, '/'.join('%s%d' % x for x in p) or 'root', order[0], order[1]), spec))
         # pairs
         npairs = 2 if tier == 'quick' else 10
         for j in range(npairs):
